@@ -38,6 +38,17 @@ const DEGENERATE: [&str; 8] = [
     "def no_final_newline() -> int:\n    return 1",
 ];
 
+/// Docstring layouts (module-level and in a function): leading blank / whitespace-only line, trailing blanks, indented
+/// continuation lines, one-liners with padding.
+const DOCSTRINGS: [&str; 6] = [
+    "\"\"\"   \n   Indented first content line after a whitespace-only line.\n   Second line.   \n\"\"\"\n\ndef a() -> int:\n    return 1\n",
+    "\"\"\"\n\nTitle after two blank lines\n\n    indented block\n\n\"\"\"\n",
+    "\"\"\"  padded one-liner  \"\"\"\n\ndef b() -> int:\n    \"\"\"  function docstring with padding   \"\"\"\n    return 2\n",
+    "def c() -> int:\n    \"\"\"\n      first line indented more\n    second line\n\n    \"\"\"\n    return 3\n",
+    "\"\"\"\tTabbed start\n\tand a tabbed line\n\"\"\"\n",
+    "\"\"\"Text directly, then blank lines\n\n\n\"\"\"\n\nconst Z: int = 1\n",
+];
+
 const WELL_FORMED: [&str; 4] = [
     "def add(a: int, b: int) -> int:\n    return a + b\n",
     "model Point:\n    x: int\n    y: int\n\n\ndef origin() -> Point:\n    return Point(x=0, y=0)\n",
@@ -59,7 +70,7 @@ pub fn gen_scn(seed: u64, corpus: &[world::CorpusProgram]) -> Scn {
                 let c = r.pick(corpus);
                 c.files.iter().find(|f| f.0 == c.entry).map(|f| f.1.clone()).unwrap_or_default()
             }
-            5 => r.pick(&DEGENERATE).to_string(),
+            5 => if r.chance(1, 2) { r.pick(&DEGENERATE).to_string() } else { r.pick(&DOCSTRINGS).to_string() },
             6..=7 => {
                 let p = crate::c12::gen_program(r.next());
                 p.files.iter().find(|f| f.0 == p.entry).map(|f| f.1.clone()).unwrap_or_default()
